@@ -138,4 +138,66 @@ def runC (ix : Index) : Memo Name → List Op → List Ans
   | c, .lookup a :: ops => let r := lookupC ix c a; .lookup r.2 :: runC ix r.1 ops
   | c, .iter :: ops => let r := iterSymbolsC ix c; .iter r.2 :: runC ix r.1 ops
 
+/-! ### `iter_symbols` element by element: the cache is locked once per element (lines 313-316) -/
+
+def iterElemC (ix : Index) (c : Memo Name) (i : Nat) : Memo Name × Option (Nat × Name) :=
+  match ix.rels[i]? with
+  | none => (c, none)                                 -- not reached: `i < symbol_count()`
+  | some s =>
+    let r := Memo.get (nameAt ix) c i
+    (r.1, r.2.map fun n => (s, n))
+
+def iterElem (ix : Index) (i : Nat) : Option (Nat × Name) :=
+  (ix.rels[i]?).bind fun s => (nameAt ix i).map fun n => (s, n)
+
+inductive Step where
+  | lookup (a : Addr)
+  | elem (i : Nat)
+deriving DecidableEq, Repr
+
+inductive StepAns where
+  | lookup (r : Out SymInfo)
+  | elem (o : Option (Nat × Name))
+deriving DecidableEq, Repr
+
+def pureStep (ix : Index) : Step → StepAns
+  | .lookup a => .lookup (lookup ix a)
+  | .elem i => .elem (iterElem ix i)
+
+def runSteps (ix : Index) : Memo Name → List Step → List StepAns
+  | _, [] => []
+  | c, .lookup a :: st => let r := lookupC ix c a; .lookup r.2 :: runSteps ix r.1 st
+  | c, .elem i :: st => let r := iterElemC ix c i; .elem r.2 :: runSteps ix r.1 st
+
+/-! ### from the record stream of the file to the index entries -/
+
+/-- one record of a jitdump file as `JitDumpIndex::from_reader` (jitdump.rs:71-111) sees it -/
+inductive Rec where
+  /-- JIT_CODE_LOAD: length of the function name (without the NUL), code length, the name bytes -/
+  | load (nameLen : Nat) (codeLen : Nat) (name : Option Name)
+  /-- JIT_CODE_DEBUG_INFO with this `total_size`: remembered for the frames of the next load, no index entry -/
+  | debugInfo (size : Nat)
+  /-- any other record type with this `total_size`: skipped -/
+  | other (size : Nat)
+deriving Repr
+
+/-- `total_size` of the record: header 16 bytes; a load body is 40 bytes of fixed fields, the NUL-terminated name,
+the code bytes -/
+def Rec.size : Rec → Nat
+  | .load nl cl _ => 16 + 40 + nl + 1 + cl
+  | .debugInfo s => s
+  | .other s => s
+
+/-- the loop of `from_reader` from file offset `off` in a file of `fileLen` bytes: it ends at the first record that
+is not completely inside the file (`next_record()` returns nothing / `skip_next_record()` fails / no further
+header), which is how a dump that is still being written is read -/
+def entriesFrom (fileLen : Nat) : Nat → List Rec → List Entry
+  | _, [] => []
+  | off, r :: rest =>
+    if fileLen < off + r.size then [] else
+    match r with
+    | .load nl cl nm => ⟨off + 16 + 40 + nl + 1, cl, nm⟩ :: entriesFrom fileLen (off + r.size) rest
+    | .debugInfo _ => entriesFrom fileLen (off + r.size) rest
+    | .other _ => entriesFrom fileLen (off + r.size) rest
+
 end JitDump
